@@ -43,7 +43,7 @@ func cmdGate(o opts) {
 
 	protos := allProtos()
 	ix := defIndex(protos)
-	all := findDialect("all")
+	all := findDialect("allplus")
 	cfg := streamCfg{drw: mustRW(all), dl: dialectIndices(all, ix)}
 
 	var vecs []gateVec
